@@ -12,7 +12,9 @@ unit-of-measure layer on top of them:
 
 Core Lean only (compiled into the line-protocol driver).
 
-Python objects are ids (`Nat`) into an explicit store; `is`-identity is equality of ids.
+Python objects are ids (`Nat`) into an explicit store; `is`-identity is equality of ids.  Stream objects
+(originals, `proxy()`s, `flow_proxy()`s, phase views `ms[phase]`) hold an indexer object; a `proxy()` holds the *same*
+indexer object as its original, a phase view an indexer of its own over one *row object* of its parent.
 The store is split into a *structural* part (`Struct`: which stream holds which data object,
 `_data_cache` dict, thermal-condition object, phase container; which row objects a data object
 consists of; which view objects a `_data_cache` holds and what those views reference) and a
@@ -102,9 +104,10 @@ structure View where
   th : Nat
   deriving Repr, Inhabited
 
-/-- The fields of a stream (and of the molar indexer it owns) that matter here. -/
+/-- A molar indexer object (`ChemicalMolarFlowIndexer` / `MolarFlowIndexer`).  `World.stream` returns the same record
+for a stream, with `tc` filled in from the stream object (inside the indexer table `tc` is unused). -/
 structure Stream where
-  /-- class: `MultiStream` (material indexer) or `Stream` (chemical indexer) -/
+  /-- material indexer (`MultiStream`) or chemical indexer (`Stream`) -/
   multi : Bool := false
   /-- `_imol.data` -/
   data : Nat := 0
@@ -114,19 +117,32 @@ structure Stream where
   ph : Nat := 0
   /-- `_imol._phases` (multi-phase only) -/
   phases : List Char := []
-  /-- `_thermal_condition` -/
+  /-- `_thermal_condition` (a field of the stream object, not of the indexer) -/
   tc : Nat := 0
   /-- `_thermo` / `_imol._chemicals` -/
   th : Nat := 0
+  /-- `_imol._phase` is a `LockedPhase` (the indexer of a phase view `ms[phase]`) -/
+  locked : Bool := false
   deriving Repr, Inhabited
 
 def Stream.viewPhases (s : Stream) : List Char := if s.multi then s.phases else []
 def Stream.viewPc (s : Stream) : Option Nat := if s.multi then none else some s.ph
 
+/-- A stream object: which indexer object it holds (`_imol`; a `proxy()` holds the *same* one), its
+thermal-condition object, and its phase views (`_streams`: phase label ↦ stream object). -/
+structure SRef where
+  ix : Nat := 0
+  tc : Nat := 0
+  views : List (Char × Nat) := []
+  deriving Repr, Inhabited
+
 /-- identities -/
 structure Struct where
   nstreams : Nat := 0
-  streams : Nat → Stream := fun _ => {}
+  streams : Nat → SRef := fun _ => {}
+  nixs : Nat := 0
+  /-- the molar indexer objects -/
+  ixs : Nat → Stream := fun _ => {}
   ndatas : Nat := 0
   /-- data object ↦ its row objects (`SparseVector`: itself; `SparseArray.rows`) -/
   datas : Nat → List Nat := fun _ => []
@@ -136,6 +152,9 @@ structure Struct where
   ntcs : Nat := 0
   nphs : Nat := 0
   nviews : Nat := 0
+
+/-- the indexer object stream `sid` holds -/
+def Struct.ixOf (z : Struct) (sid : Nat) : Stream := z.ixs (z.streams sid).ix
 
 /-- one entry of `VolumetricFlowDict.cache` (of the dictionary view of row position `k`):
 `idx ↦ (TP.copy(), phase, V)` -/
@@ -167,7 +186,8 @@ structure World where
 
 def World.init : World := {}
 
-def World.stream (w : World) (sid : Nat) : Stream := w.s.streams sid
+def World.stream (w : World) (sid : Nat) : Stream := { w.s.ixOf sid with tc := (w.s.streams sid).tc }
+def World.views (w : World) (sid : Nat) : List (Char × Nat) := (w.s.streams sid).views
 def World.MW (w : World) (th : Nat) : List Rat := w.thermos.getD th []
 def World.rowsOf (w : World) (sid : Nat) : List Nat := w.s.datas (w.stream sid).data
 
@@ -193,24 +213,34 @@ def compat (phases : List Char) : List Char := phases.map Char.toLower
 
 /-! ### allocation of fresh objects -/
 
-/-- Bind a brand-new molar indexer state to stream `sid`: fresh row objects holding `contents`, a fresh
-data object, a fresh empty `_data_cache`; `phSel = some c` also allocates a fresh phase container
-holding `c` (what `to_material_indexer`, `to_chemical_indexer`, `reset_chemicals` without container
-and the copies made by `unlink` produce).  The thermal-condition object is kept. -/
+/-- a brand-new data object consisting of the row objects `rowIds` -/
+def Struct.allocData (z : Struct) (rowIds : List Nat) : Struct :=
+  { z with ndatas := z.ndatas + 1, datas := upd z.datas z.ndatas rowIds }
+
+/-- Stream `sid` is bound to a brand-new indexer object `rec` whose `_data_cache` is a brand-new empty dict. -/
+def Struct.bindNew (z : Struct) (sid : Nat) (nix : Stream) : Struct :=
+  { z with ixs := upd z.ixs z.nixs { nix with cache := z.ncaches }, nixs := z.nixs + 1,
+           streams := upd z.streams sid { z.streams sid with ix := z.nixs },
+           ncaches := z.ncaches + 1, caches := upd z.caches z.ncaches [] }
+
+/-- Bind a brand-new molar indexer to stream `sid`: fresh row objects holding `contents`, a fresh
+data object, a fresh empty `_data_cache`; `phSel = some c` also allocates a fresh (unlocked) phase container
+holding `c` (what `to_material_indexer`, `to_chemical_indexer`, `imol.copy()` in `unlink`, `blank` produce, and — for an
+indexer no other stream holds — `reset_chemicals` without container).  The thermal-condition object and the phase views
+of the stream object are kept. -/
 def World.rebind (w : World) (sid : Nat) (multi : Bool) (phases : List Char) (phSel : Option Char)
     (th : Nat) (contents : List (List Rat)) : World :=
   let z := w.s
-  let s := z.streams sid
+  let s := w.stream sid
   let rowIds := List.range' z.nrows contents.length
-  let s' : Stream := { multi := multi, data := z.ndatas, cache := z.ncaches,
-                       ph := (match phSel with | some _ => z.nphs | none => s.ph),
-                       phases := phases, tc := s.tc, th := th }
+  let nix : Stream := { multi := multi, data := z.ndatas,
+                        ph := (match phSel with | some _ => z.nphs | none => s.ph),
+                        phases := phases, th := th,
+                        locked := (match phSel with | some _ => false | none => s.locked) }
+  let z1 := (z.allocData rowIds).bindNew sid nix
   { w with
-    s := { z with streams := upd z.streams sid s',
-                  ndatas := z.ndatas + 1, datas := upd z.datas z.ndatas rowIds,
-                  ncaches := z.ncaches + 1, caches := upd z.caches z.ncaches [],
-                  nrows := z.nrows + contents.length,
-                  nphs := (match phSel with | some _ => z.nphs + 1 | none => z.nphs) },
+    s := { z1 with nrows := z.nrows + contents.length,
+                   nphs := (match phSel with | some _ => z.nphs + 1 | none => z.nphs) },
     c := { w.c with rows := updRange w.c.rows z.nrows contents,
                     phs := (match phSel with | some c => upd w.c.phs z.nphs c | none => w.c.phs) } }
 
@@ -224,6 +254,20 @@ def World.newStream (w : World) (multi : Bool) (phases : List Char) (ph : Char) 
                                            ntcs := z.ntcs + 1 },
                              c := { w.c with tcs := upd w.c.tcs z.ntcs (T, P) } }
   (w1.rebind sid multi phases (some ph) th contents, sid)
+
+/-- `parent._imol.get_phase(c)` bound to stream object `v`: a brand-new chemical indexer over the *row object* `r` of the
+parent, with a `LockedPhase(c)` and a brand-new `_data_cache` (first access of `ms[c]`, and every re-attachment). -/
+def World.attach (w : World) (v r : Nat) (c : Char) (th : Nat) : World :=
+  let z := w.s
+  let nix : Stream := { multi := false, data := z.ndatas, ph := z.nphs, phases := [], th := th, locked := true }
+  { w with s := { (z.allocData [r]).bindNew v nix with nphs := z.nphs + 1 },
+           c := { w.c with phs := upd w.c.phs z.nphs c } }
+
+def World.setTc (w : World) (sid tc : Nat) : World :=
+  { w with s := { w.s with streams := upd w.s.streams sid { w.s.streams sid with tc := tc } } }
+
+def World.setViews (w : World) (sid : Nat) (vs : List (Char × Nat)) : World :=
+  { w with s := { w.s with streams := upd w.s.streams sid { w.s.streams sid with views := vs } } }
 
 /-- contents of row object `r` after the rows `rs` have been overwritten with `R` -/
 def overwritten (rows : Nat → List Rat) (rs : List Nat) (R : List (List Rat)) (r : Nat) : List Rat :=
@@ -242,7 +286,7 @@ def World.setContents (w : World) (sid : Nat) (R : List (List Rat)) : World :=
 /-- `_data_cache[key]`, creating and caching the view on a miss. -/
 def World.getView (w : World) (sid : Nat) (key : Key) : World × View :=
   let z := w.s
-  let s := z.streams sid
+  let s := w.stream sid
   match (z.caches s.cache).lookup key with
   | some v => (w, v)
   | none =>
@@ -519,23 +563,87 @@ def World.shape (w : World) (sid : Nat) : Bool × List Char :=
   let s := w.stream sid
   if s.multi then (true, s.phases) else (false, [w.c.phs s.ph])
 
-/-- `stream.phase = c`.  Single-phase: the phase container is written in place (everything that
-shares it sees the change; no cache is touched).  Multi-phase: `to_chemical_indexer`, a new indexer
-whose contents `R` are the sum of the rows. -/
-def World.setPhase (w : World) (sid : Nat) (c : Char) (R : List (List Rat)) : Except Err World :=
-  let s := w.stream sid
-  if s.multi then
-    (if R.length ≠ 1 then .error .shape else .ok (w.rebind sid false [] (some c) s.th R))
-  else .ok { w with c := { w.c with phs := upd w.c.phs s.ph c } }
-
-/-- can a single-phase indexer in phase `c` be re-filed under `phases`? (`to_material_indexer`) -/
+/-- can a single-phase indexer in phase `c` be re-filed under `phases`? (`to_material_indexer`, `get_phase`) -/
 def fileable (phases : List Char) (c : Char) : Bool := (phaseIndex phases c).isSome
 
 def nonzeroRow (r : List Rat) : Bool := r.any (· != 0)
 
+/-! ### phase views `ms[phase]` -/
+
+/-- the row object of stream `sid` a phase label addresses -/
+def World.rowFor (w : World) (sid : Nat) (c : Char) : Option Nat :=
+  match phaseIndex (w.stream sid).phases c with
+  | some k => (w.rowsOf sid)[k]?
+  | none => none
+
+/-- Re-attachment of the phase views of stream `sid` after its indexer / data / thermal condition changed
+(`link_with`, `unlink`, `_reset_thermo`, the `phases` setter): `rebindIx` ⇒ `view._imol = imol.get_phase(phase)` for
+every phase that can be filed; `setTc` ⇒ `view._thermal_condition = self._thermal_condition`.  (One view.) -/
+def World.reattachStep (sid : Nat) (rebindIx setTc : Bool) (w : World) (cv : Char × Nat) : World :=
+  let w1 := if rebindIx then
+      (match w.rowFor sid cv.1 with
+       | some r => w.attach cv.2 r cv.1 (w.stream sid).th
+       | none => w)
+    else w
+  if setTc then w1.setTc cv.2 (w1.s.streams sid).tc else w1
+
+def World.reattach (w : World) (sid : Nat) (rebindIx setTc : Bool) : World :=
+  (w.views sid).foldl (World.reattachStep sid rebindIx setTc) w
+
+/-- `MultiStream.__getitem__(c)`: the cached phase view, or a new `Stream` object over the row of that phase which
+shares the parent's thermal-condition object. -/
+def World.phaseView (w : World) (sid : Nat) (c : Char) : Except Err (World × Nat) :=
+  let s := w.stream sid
+  if !s.multi then .error .precondition else
+  match (w.views sid).lookup c with
+  | some v => .ok (w, v)
+  | none =>
+    match w.rowFor sid c with
+    | none => .error .undefinedPhase
+    | some r =>
+      let z := w.s
+      let v := z.nstreams
+      let w1 : World := { w with s := { z with nstreams := z.nstreams + 1,
+                                               streams := upd z.streams v { tc := (z.streams sid).tc } } }
+      let w2 := w1.attach v r c s.th
+      .ok (w2.setViews sid (w.views sid ++ [(c, v)]), v)
+
+/-! ### proxies -/
+
+/-- `Stream.proxy()`: a new stream object holding the *same* indexer object and thermal-condition object
+(its own, empty `_streams`). -/
+def World.proxy (w : World) (sid : Nat) : World × Nat :=
+  let z := w.s
+  ({ w with s := { z with nstreams := z.nstreams + 1,
+                          streams := upd z.streams z.nstreams { ix := (z.streams sid).ix, tc := (z.streams sid).tc } } },
+   z.nstreams)
+
+/-- `Stream.flow_proxy()`: a new stream object with its own indexer (`_copy_without_data`: copy of the phase container,
+new `_data_cache`) over the *same* data object, and a copy of the thermal condition. -/
+def World.flowProxy (w : World) (sid : Nat) : World × Nat :=
+  let z := w.s
+  let s := w.stream sid
+  let v := z.nstreams
+  let nix : Stream := { multi := s.multi, data := s.data, ph := z.nphs, phases := s.phases, th := s.th, locked := false }
+  let z1 : Struct := { z with nstreams := z.nstreams + 1, streams := upd z.streams v { tc := z.ntcs },
+                              ntcs := z.ntcs + 1 }
+  ({ w with s := { z1.bindNew v nix with nphs := z.nphs + 1 },
+            c := { w.c with tcs := upd w.c.tcs z.ntcs (w.c.tcs s.tc), phs := upd w.c.phs z.nphs (w.c.phs s.ph) } }, v)
+
+/-! ### phase(s) setters -/
+
+/-- `stream.phase = c`.  Single-phase: the phase container is written in place (everything that
+shares it sees the change; no cache is touched).  Multi-phase: `to_chemical_indexer`, a new indexer
+whose contents `R` are the sum of the rows; `_streams.clear()`. -/
+def World.setPhase (w : World) (sid : Nat) (c : Char) (R : List (List Rat)) : Except Err World :=
+  let s := w.stream sid
+  if s.multi then
+    (if R.length ≠ 1 then .error .shape else .ok ((w.rebind sid false [] (some c) s.th R).setViews sid []))
+  else .ok { w with c := { w.c with phs := upd w.c.phs s.ph c } }
+
 /-- `stream.phases = ps` (`ps` non-empty).  `to_material_indexer` re-files every *non-empty* row under the new
 phases (exact label, else the other case of the letter) and raises `UndefinedPhase` — before anything is rebound —
-when that is impossible. -/
+when that is impossible.  Phase views whose label can still be filed are re-attached, the others dropped. -/
 def World.setPhases (w : World) (sid : Nat) (ps : List Char) (R : List (List Rat)) : Except Err World :=
   let s := w.stream sid
   let pt := phaseTuple ps
@@ -548,85 +656,110 @@ def World.setPhases (w : World) (sid : Nat) (ps : List Char) (R : List (List Rat
        else if (s.phases.zip (w.readMol sid)).any (fun (p, r) => nonzeroRow r && !fileable pt p) then
          .error .undefinedPhase
        else if R.length ≠ pt.length then .error .shape
-       else .ok (w.rebind sid true pt none s.th R))
+       else
+         let w1 := w.rebind sid true pt none s.th R
+         .ok ((w1.setViews sid ((w.views sid).filter (fun cv => fileable pt cv.1))).reattach sid true false))
     else
       (if !fileable pt (w.c.phs s.ph) && (w.readMol sid).any nonzeroRow then .error .undefinedPhase
        else if R.length ≠ pt.length then .error .shape
-       else .ok (w.rebind sid true pt none s.th R))
+       else .ok ((w.rebind sid true pt none s.th R).setViews sid []))
 
 /-! ### links -/
 
-/-- a brand-new empty `_data_cache` dict for stream `sid` -/
+/-- `self._imol._data_cache = {}`: a brand-new empty dict bound to the indexer object of stream `sid` (every stream
+object holding that indexer sees it) -/
 def World.freshCache (w : World) (sid : Nat) : World :=
   let z := w.s
+  let k := (z.streams sid).ix
   { w with s := { z with ncaches := z.ncaches + 1, caches := upd z.caches z.ncaches [],
-                         streams := upd z.streams sid { z.streams sid with cache := z.ncaches } } }
+                         ixs := upd z.ixs k { z.ixs k with cache := z.ncaches } } }
 
 /-- `_data_cache.clear()`: the dict object stays, and stays shared -/
 def World.clearCache (w : World) (sid : Nat) : World :=
   let z := w.s
-  { w with s := { z with caches := upd z.caches (z.streams sid).cache [] } }
+  { w with s := { z with caches := upd z.caches (z.ixOf sid).cache [] } }
 
 /-- the sharing branch of `link_with` (`TP and flow and (phase or ndim == 2)`): the `_data_cache` dict,
-the thermal condition, the data (and the phase container) of `other` are taken over -/
+the data (and the phase container) of `other` are bound to the indexer object of `sid`, the thermal condition of
+`other` to the stream object `sid` -/
 def World.linkShare (w : World) (sid oid : Nat) (phase : Bool) : World :=
   let z := w.s
-  let s := z.streams sid
-  let o := z.streams oid
-  let s2 : Stream := { s with cache := o.cache, tc := o.tc, data := o.data,
-                              ph := if phase && !s.multi then o.ph else s.ph }
-  { w with s := { z with streams := upd z.streams sid s2 } }
+  let k := (z.streams sid).ix
+  let s := z.ixs k
+  let o := z.ixOf oid
+  let s2 : Stream := { s with cache := o.cache, data := o.data,
+                              ph := if phase && !s.multi then o.ph else s.ph,
+                              locked := if phase && !s.multi then o.locked else s.locked }
+  { w with s := { z with ixs := upd z.ixs k s2,
+                         streams := upd z.streams sid { z.streams sid with tc := (z.streams oid).tc } } }
 
 /-- the other branch of `link_with`: the `_data_cache` is dropped (`fixed = true`: a new dict is bound, the
-repaired behaviour; `fixed = false`: the dict is cleared in place, as found, so a dict that is shared with a
-third stream stays shared) and whatever is requested is taken over -/
+repaired behaviour; `fixed = false`: the dict is cleared in place, as it was before a11de35) and whatever is requested is
+taken over -/
 def World.linkPlain (fixed : Bool) (w : World) (sid oid : Nat) (flow phase tp : Bool) : World :=
-  let o := w.s.streams oid
-  let w1 := if fixed then w.freshCache sid else w.clearCache sid
-  let z := w1.s
-  let s1 := z.streams sid
-  let s2 : Stream := { s1 with tc := if tp then o.tc else s1.tc,
-                               data := if flow then o.data else s1.data,
-                               ph := if phase && !s1.multi then o.ph else s1.ph }
-  { w1 with s := { z with streams := upd z.streams sid s2 } }
+  let z := w.s
+  let k := (z.streams sid).ix
+  let s := z.ixOf sid
+  let o := z.ixOf oid
+  let s2 : Stream := { s with data := if flow then o.data else s.data,
+                              ph := if phase && !s.multi then o.ph else s.ph,
+                              locked := if phase && !s.multi then o.locked else s.locked }
+  let streams' := upd z.streams sid { z.streams sid with tc := if tp then (z.streams oid).tc else (z.streams sid).tc }
+  if fixed then
+    { w with s := { z with ncaches := z.ncaches + 1, caches := upd z.caches z.ncaches [],
+                           ixs := upd z.ixs k { s2 with cache := z.ncaches }, streams := streams' } }
+  else
+    { w with s := { z with caches := upd z.caches s.cache [], ixs := upd z.ixs k s2, streams := streams' } }
 
-/-- `Stream.link_with(other, flow, phase, TP)`. -/
+/-- `Stream.link_with(other, flow, phase, TP)`; for a MultiStream with `flow or TP` the phase views are re-attached
+(d9738d9). -/
 def World.linkWith (fixed : Bool) (w : World) (sid oid : Nat) (flow phase tp : Bool) : Except Err World :=
   let s := w.stream sid
   let o := w.stream oid
   if s.multi ≠ o.multi then .error .classMismatch
   else if flow && (s.th ≠ o.th || (s.multi && s.phases ≠ o.phases)) then .error .precondition
-  else if tp && flow && (phase || s.multi) then .ok (w.linkShare sid oid phase)
-  else .ok (w.linkPlain fixed sid oid flow phase tp)
+  else
+    let w1 := if tp && flow && (phase || s.multi) then w.linkShare sid oid phase
+              else w.linkPlain fixed sid oid flow phase tp
+    .ok (if s.multi && (flow || tp) then w1.reattach sid flow true else w1)
 
 def World.link := World.linkWith true
 def World.linkOld := World.linkWith false
 
-/-- `Stream.unlink()`: copies of the phase container, the data and the thermal condition.
-`fixed = true`: `imol._data_cache = {}` (repaired); `fixed = false`: `imol._data_cache.clear()` (as found:
-the dict object stays, and stays shared with whatever stream it was shared with). -/
+/-- `Stream.unlink()`: `self._imol = imol.copy()` (a new indexer object: copies of the phase container and of the data, a
+new `_data_cache`), a copy of the thermal condition, phase views re-attached (58e0e04, 4329d3a).
+`fixed = false`: the code before a11de35 (`_data_cache.clear()` on the indexer that stays). -/
 def World.unlinkWith (fixed : Bool) (w : World) (sid : Nat) : World :=
   let s := w.stream sid
   let w0 := if fixed then w else w.clearCache sid
   let w1 := w0.rebind sid s.multi s.phases (if s.multi then none else some (w.c.phs s.ph)) s.th (w.readMol sid)
   let z := w1.s
-  let s1 := z.streams sid
-  { w1 with s := { z with ntcs := z.ntcs + 1,
-                          streams := upd z.streams sid { s1 with tc := z.ntcs,
-                                                                 cache := if fixed then s1.cache else s.cache } },
-            c := { w1.c with tcs := upd w1.c.tcs z.ntcs (w.c.tcs s.tc) } }
+  let w2 : World :=
+    { w1 with s := { z with ntcs := z.ntcs + 1,
+                            streams := upd z.streams sid { z.streams sid with tc := z.ntcs } },
+              c := { w1.c with tcs := upd w1.c.tcs z.ntcs (w.c.tcs s.tc) } }
+  let k := (w2.s.streams sid).ix
+  let w3 : World := if fixed then w2
+    else { w2 with s := { w2.s with ixs := upd w2.s.ixs k { w2.s.ixs k with cache := s.cache } } }
+  w3.reattach sid true true
 
 def World.unlink := World.unlinkWith true
 def World.unlinkOld := World.unlinkWith false
 
 /-! ### `_expand_phases`, `copy_like`, `_reset_thermo` -/
 
+/-- does a stream object with *another* indexer hold the data object of stream `sid`? -/
 def World.dataShared (w : World) (sid : Nat) : Bool :=
-  (List.range w.s.nstreams).any (fun t => t != sid && (w.stream t).data == (w.stream sid).data)
+  (List.range w.s.nstreams).any (fun t => (w.s.streams t).ix != (w.s.streams sid).ix &&
+                                          (w.s.ixOf t).data == (w.s.ixOf sid).data)
+
+/-- does another stream object hold the indexer object of stream `sid` (a `proxy()`)? -/
+def World.ixShared (w : World) (sid : Nat) : Bool :=
+  (List.range w.s.nstreams).any (fun t => t != sid && (w.s.streams t).ix == (w.s.streams sid).ix)
 
 /-- `MaterialIndexer._expand_phases(other_phases)`: the row list of the *same* data object is
-replaced (old row objects kept, new ones added, sorted by phase); repaired: the `_data_cache` is
-cleared (`clear := true`). -/
+replaced (old row objects kept, new ones added, sorted by phase) and the phases of the *same* indexer object change;
+the `_data_cache` is cleared (`clear := true`; `false` = the code before f0492a1). -/
 def World.expandPhases (clear : Bool) (w : World) (sid : Nat) (others : List Char) : Except Err World :=
   let s := w.stream sid
   let newPhases := (phaseTuple others).filter (fun p => !s.phases.contains p)
@@ -634,6 +767,7 @@ def World.expandPhases (clear : Bool) (w : World) (sid : Nat) (others : List Cha
   else if w.dataShared sid then .error .sharedData
   else
     let z := w.s
+    let k := (z.streams sid).ix
     let all := phaseTuple (s.phases ++ newPhases)
     let old := z.datas s.data
     let rowOf (p : Char) : Nat :=
@@ -644,7 +778,7 @@ def World.expandPhases (clear : Bool) (w : World) (sid : Nat) (others : List Cha
     let w1 : World :=
       { w with s := { z with datas := upd z.datas s.data (all.map rowOf),
                              nrows := z.nrows + newPhases.length,
-                             streams := upd z.streams sid { s with phases := all } },
+                             ixs := upd z.ixs k { z.ixs k with phases := all } },
                c := { w.c with rows := updRange w.c.rows z.nrows (newPhases.map (fun _ => List.replicate n 0)) } }
     .ok (if clear then w1.clearCache sid else w1)
 
@@ -676,7 +810,7 @@ def World.copyLikeWith (clear : Bool) (w : World) (sid oid : Nat) (R : List (Lis
        -- `self._imol = self._imol.blank(phases[0], …); self.phases = phases`: a brand-new (empty) indexer is
        -- re-filed under the source's phases, so the receiver's old phase never matters; then the rows are copied
        if R.length ≠ o.phases.length then .error .shape
-       else .ok ((w.rebind sid true o.phases none s.th R).copyTC sid oid))
+       else .ok (((w.rebind sid true o.phases none s.th R).setViews sid []).copyTC sid oid))
   | true, false =>
     -- a phase the receiver cannot file makes `MaterialIndexer.copy_like` expand the phases first
     (match (if (phaseIndex s.phases (w.c.phs o.ph)).isSome then .ok w
@@ -696,14 +830,15 @@ def World.copyLikeWith (clear : Bool) (w : World) (sid oid : Nat) (R : List (Lis
 def World.copyLike := World.copyLikeWith true
 def World.copyLikeOld := World.copyLikeWith false
 
-/-- `Stream._reset_thermo(thermo)`: `reset_chemicals` binds a fresh data object and a fresh `_data_cache` to
-the *same* indexer (phase container and phases stay). -/
+/-- `Stream._reset_thermo(thermo)`: `reset_chemicals` binds a fresh data object and a fresh `_data_cache` to the
+indexer (phase container and phases stay) and the phase views are re-attached.  The indexer must not be held by another
+stream object (a `proxy()` would keep its old `_thermo`: not modelled). -/
 def World.resetThermo (w : World) (sid k : Nat) (R : List (List Rat)) : Except Err World :=
   let s := w.stream sid
   if k = s.th then .ok w
-  else if k ≥ w.thermos.length then .error .precondition
+  else if k ≥ w.thermos.length || w.ixShared sid then .error .precondition
   else if R.length ≠ (w.rowsOf sid).length then .error .shape
-  else .ok (w.rebind sid s.multi s.phases none k R)
+  else .ok ((w.rebind sid s.multi s.phases none k R).reattach sid true false)
 
 /-! ### in-place operations whose numbers are another property's business -/
 
@@ -752,6 +887,9 @@ inductive Op where
   | thermo (s k : Nat) (R : Mat)
   | sync (s : Nat) (T P : Rat) (ph : Option Char) (R : Mat)
   | mixInto (s : Nat) (others : List Char) (P : Rat) (R : Mat)
+  | view (s : Nat) (c : Char)
+  | proxy (s : Nat)
+  | flowProxy (s : Nat)
   | readMol (s : Nat)
   | readMass (s : Nat)
   | readVol (s : Nat) (V : Mat)
@@ -777,10 +915,22 @@ inductive Out where
 def Op.sids : Op → List Nat
   | .new1 .. | .newm .. => []
   | .setT s _ | .setP s _ | .setPhase s _ _ | .setPhases s _ _ | .unlink s | .thermo s _ _
-  | .sync s _ _ _ _ | .mixInto s _ _ _
+  | .sync s _ _ _ _ | .mixInto s _ _ _ | .view s _ | .proxy s | .flowProxy s
   | .readMol s | .readMass s | .readVol s _ | .readF s _ _ | .writeF s _ _ _ | .get s _ _ _ _
   | .put s _ _ _ _ _ | .putRow s _ _ _ _ | .getFlow s _ _ _ _ | .setFlow s _ _ _ _ _ | .getTotal s _ _ | .setTotal s _ _ _ => [s]
   | .link s o _ _ _ | .copyLike s o _ => [s, o]
+
+/-- the stream an operation would rebind or re-class; refused for the indexer of a phase view (`LockedPhase`), which only
+its parent may re-attach (the code lets a user detach a view this way; that is C12's subject) -/
+def Op.restructures : Op → Option Nat
+  | .setPhase s _ _ | .setPhases s _ _ | .link s _ _ _ _ | .unlink s | .copyLike s _ _ | .thermo s _ _
+  | .view s _ | .proxy s | .flowProxy s => some s
+  | _ => none
+
+def World.lockedTarget (w : World) (op : Op) : Bool :=
+  match op.restructures with
+  | some s => (w.stream s).locked
+  | none => false
 
 def okShape (w : World) (sid : Nat) : Except Err (World × Out) :=
   let (m, p) := w.shape sid
@@ -789,6 +939,7 @@ def okShape (w : World) (sid : Nat) : Except Err (World × Out) :=
 /-- One operation.  An error leaves the world unchanged (see `World.step`). -/
 def World.exec (w : World) (op : Op) : Except Err (World × Out) :=
   if op.sids.any (fun s => s ≥ w.s.nstreams) then .error .badKey else
+  if w.lockedTarget op then .error .precondition else
   match op with
   | .new1 th ph T P flows =>
     if th ≥ w.thermos.length then .error .precondition else
@@ -811,6 +962,9 @@ def World.exec (w : World) (op : Op) : Except Err (World × Out) :=
   | .thermo s k R => (w.resetThermo s k R).bind (okShape · s)
   | .sync s T P ph R => (w.sync s T P ph R).bind (okShape · s)
   | .mixInto s others P R => (w.mixInto s others P R).bind (okShape · s)
+  | .view s c => (w.phaseView s c).map (fun (w1, v) => (w1, .sid v))
+  | .proxy s => let (w1, v) := w.proxy s; .ok (w1, .sid v)
+  | .flowProxy s => let (w1, v) := w.flowProxy s; .ok (w1, .sid v)
   | .readMol s => .ok (w, .mat none (w.readMol s))
   | .readMass s => let (w1, vid, vals) := w.readMass s; .ok (w1, .mat (some vid) vals)
   | .readVol s V => let (w1, vid, vals) := w.readVol s V; .ok (w1, .mat (some vid) vals)
